@@ -31,7 +31,9 @@ fn main() {
 /// Generic mode: each line is `<tag> <ints...>`.
 fn lines() {
     // panics are outcomes here, not noise
-    std::panic::set_hook(Box::new(|_| {}));
+    if std::env::var_os("VERIF_PANIC_MESSAGES").is_none() {
+        std::panic::set_hook(Box::new(|_| {}));
+    }
     let stdin = std::io::stdin();
     let stdout = std::io::stdout();
     let mut out = std::io::BufWriter::new(stdout.lock());
